@@ -79,7 +79,7 @@ def valspec():
 # ---------------------------------------------------------------------------
 # formula specs -> formula text against the current schema
 
-N_FORMS = 34
+N_FORMS = 36
 
 def _cols(doc, tref, data_only=False, formula_only=False):
   out = []
@@ -148,6 +148,26 @@ def formula_text(doc, tref, spec, self_col=None, max_ref=None):
     if dcols:
       return '$%s' % dcols[a % len(dcols)]['colId']
     return 'DATE(1999, 12, 31)'
+  if form in (34, 35):
+    # dereference a record-valued *formula* column (lookupOne / PREVIOUS / NEXT results held in an Any column)
+    import re as _re
+    cands = []
+    for x in mycols:
+      if not x['isFormula'] or not x['formula']:
+        continue
+      m = _re.match(r'^(\w+)\.lookupOne\(.*\)$', x['formula'].strip())
+      if m:
+        cands.append((x, m.group(1)))
+      elif _re.match(r'^(PREVIOUS|NEXT)\(rec\b.*\)$', x['formula'].strip()):
+        cands.append((x, me['tableId'] if me else None))
+    if cands:
+      x, tname = cands[a % len(cands)]
+      tgt = [t for t in tables if t['tableId'] == tname]
+      tc = col(c, _cols(doc, tgt[0]['id'])) if tgt else None
+      return '$%s.%s' % (x['colId'], tc or 'id')
+    form = 8 if form == 34 else 21     # no such column yet: make one (bare lookupOne result)
+    if oc1 is not None and c1 is not None:
+      return '%s.lookupOne(%s=$%s)' % (oid, oc1, c1)
   if c1 is None or form == 0:
     return ['1', '"x"', 'None', '2.5', '[1, 2]', 'rec.id', '$id * 2'][a % 7]
   if form == 1: return '$%s' % c1
@@ -206,7 +226,7 @@ def formula_text(doc, tref, spec, self_col=None, max_ref=None):
 
 
 # reference chains and lookups are what real documents use most: weight them up
-FORM_WEIGHTS = {1: 2, 2: 2, 3: 2, 5: 6, 6: 4, 7: 4, 8: 4, 9: 3, 10: 2, 11: 2, 12: 2, 13: 2, 14: 2, 15: 2, 18: 3,
+FORM_WEIGHTS = {34: 4, 35: 2, 1: 2, 2: 2, 3: 2, 5: 6, 6: 4, 7: 4, 8: 4, 9: 3, 10: 2, 11: 2, 12: 2, 13: 2, 14: 2, 15: 2, 18: 3,
                 19: 2, 20: 2, 21: 2}
 _FORMS = []
 for _f in range(N_FORMS):
@@ -612,6 +632,30 @@ def r_replace(doc, op):
   return ['ReplaceTableData', t['tableId'], list(range(1, n + 1)), cv]
 
 
+def r_revive(doc, op):
+  """Give some column the name of a column that formulas of the document mention but that no longer exists
+  (rename another column to it, or add it)."""
+  import re as _re
+  t = _tables(doc, op['a'], include_summary=False)
+  if not t: return None
+  cols = _cols(doc, t['id'])
+  names = set(c['colId'] for c in cols)
+  mentioned = []
+  for c in doc.columns_meta():
+    if c['formula']:
+      for m in _re.finditer(r'(?:\$|\.|rec\.|\(|, )([A-Za-z_]\w*)(?==|\b)', c['formula']):
+        n = m.group(1)
+        if n not in names and n not in mentioned and n[0].isalpha() and n not in ('id', 'lookupRecords', 'lookupOne', 'all', 'find'):
+          mentioned.append(n)
+  mentioned = [n for n in mentioned if _re.match(r'^[A-Za-z][A-Za-z0-9_]*$', n) and len(n) <= 8]
+  if not mentioned or not cols: return None
+  name = mentioned[int(op['b']) % len(mentioned)]
+  if int(op['c']) % 3 == 0:
+    return ['AddColumn', t['tableId'], name, {'type': 'Int', 'isFormula': False}]
+  src = cols[int(op['c']) % len(cols)]
+  return ['RenameColumn', t['tableId'], src['colId'], name]
+
+
 def r_bad(doc, op):
   """Deliberately invalid requests (natural failures)."""
   t = _tables(doc, op['a'])
@@ -644,7 +688,7 @@ RESOLVERS = {
   'reverse': r_reverse, 'meta_col': r_meta_col, 'meta_table': r_meta_table, 'meta_rmcol': r_meta_rmcol,
   'meta_rmtable': r_meta_rmtable, 'meta_rmfield': r_meta_rmfield, 'rawtitle': r_rawtitle,
   'displaycol': r_displaycol, 'rule': r_rule, 'trigger': r_trigger, 'choices': r_choices,
-  'copyfrom': r_copyfrom, 'bad': r_bad,
+  'copyfrom': r_copyfrom, 'bad': r_bad, 'revive': r_revive,
 }
 
 SCHEMA_KINDS = set(RESOLVERS) - {'add', 'update', 'remove', 'replace', 'bad'}
@@ -692,7 +736,7 @@ def op_strategy(kind):
     base.update(b=_sel, c=_sel, t=_mask, f=fspec())
   elif kind in ('choices',):
     base.update(b=_sel, c=_sel, t=_sel)
-  elif kind in ('copyfrom', 'bad'):
+  elif kind in ('copyfrom', 'bad', 'revive'):
     base.update(b=st.integers(0, 11), c=_sel)
   return st.fixed_dictionaries(base)
 
@@ -710,7 +754,7 @@ PROFILES = {
   'formula': {
     'add': 12, 'update': 14, 'remove': 5,
     'addtable': 3, 'addcol': 4, 'addfcol': 12, 'addref': 5, 'rmcol': 2, 'rencol': 3, 'modtype': 3,
-    'modformula': 6, 'toggle': 2, 'rmtable': 1, 'rentable': 1, 'summary': 4, 'summaryupd': 2,
+    'modformula': 6, 'toggle': 2, 'rmtable': 1, 'rentable': 1, 'summary': 4, 'summaryupd': 2, 'revive': 3,
     'reverse': 1, 'meta_col': 2, 'displaycol': 1, 'choices': 1,
   },
   'schema': {
@@ -732,7 +776,7 @@ PROFILES = {
     'addfcol': 5, 'add': 4, 'update': 3, 'remove': 2, 'summary': 2, 'meta_rmcol': 2, 'addcol': 2, 'rawtitle': 2,
   },
   # data edits under reference-following formulas
-  'refdata': {'update': 22, 'add': 6, 'remove': 5, 'addfcol': 9, 'addref': 5, 'modformula': 2, 'reverse': 1, 'modtype': 1},
+  'refdata': {'revive': 1, 'update': 22, 'add': 6, 'remove': 5, 'addfcol': 9, 'addref': 5, 'modformula': 2, 'reverse': 1, 'modtype': 1},
   'records': {
     'add': 12, 'update': 12, 'remove': 6, 'replace': 1, 'addcol': 1, 'addfcol': 2, 'bad': 1,
   },
